@@ -6,6 +6,8 @@ from shapes import VEC, VECS, MATS, mat
 def vec_unit(exp, name, shapes, ops=('Add', 'Sub', 'Mul', 'Div'), extra=None, mats=()):
     """a unit with the vector core of the given shapes"""
     u = U.Unit(exp, name)
+    import opscore
+    opscore.add_partial_minmax(u)
     types = []
     for sh in shapes:
         veccore.add_struct_core(u, sh)
